@@ -119,6 +119,14 @@ def _ev_feeder(m, cfg: CFG, x: str):
     return ev
 
 
+_POLAR = {'NO_PRE?:T': 'PRE=no', 'NO_PRE?:F': 'PRE=yes', 'HAS_PRE?:T': 'PRE=yes', 'HAS_PRE?:F': 'PRE=no', 'STOP?:T': 'STOP=yes', 'STOP?:F': 'STOP=no', '!STOP?:T': 'STOP=no', '!STOP?:F': 'STOP=yes', 'IS_END?:T': 'END=yes', 'IS_END?:F': 'END=no', 'NOT_END?:T': 'END=no', 'NOT_END?:F': 'END=yes'}
+
+
+def _polar(t):
+    """branch outcomes are compared by meaning, not by how the test happens to be written"""
+    return _POLAR.get(t, t)
+
+
 def _paths(cfg: CFG, start_edges, ev, stop=None):
     out = set()
     for e0 in start_edges:
@@ -134,7 +142,7 @@ def _paths(cfg: CFG, start_edges, ev, stop=None):
                 if t is not None:
                     nxt = edges[i + 1] if i + 1 < len(edges) else None
                     if nxt is not None and cfg.nodes[nid].kind == 'test':
-                        t += ':' + nxt.kind
+                        t = _polar(t + ':' + nxt.kind)
                     seq.append(t)
                     if nxt is not None and nxt.kind == 'exc':
                         seq.append('RAISES(' + ','.join(sorted(set(nxt.data or ()) - ERASED)) + ')')
@@ -178,7 +186,7 @@ def _ev_consumer(m, cfg: CFG, loop: Node):
                 return None
             t = a
             if isinstance(t, ast.Compare) and is_name(t.left, zname) and is_none(t.comparators[0]):
-                return 'IS_END?'
+                return 'IS_END?' if isinstance(t.ops[0], ast.Is) else 'NOT_END?'
             if isinstance(t, ast.Call) and dotted(t.func) == 'isinstance' and is_name(t.args[0], zname):
                 return f'IS_EXC({norm_text(t.args[1])})?'
             return f'FLAG({norm_text(t)})?'
